@@ -161,15 +161,19 @@ def install_arc4(reg):
 
 # ------------------------------------------------------------------------------------------------ ChaCha20
 
-def next_type():
+def next_type(state=None):
+    """`_next` of ChaCha20Cipher: a tuple of method names; all reachable automaton states, or only the state-th one"""
     from spec import fsm
-    return '|'.join('tuple(%s)' % ','.join("const:'%s'" % m for m in s) for s in fsm.reach('CLASSIC'))
+    states = fsm.reach('CLASSIC')
+    if isinstance(state, int):
+        states = [states[state]]
+    return '|'.join('tuple(%s)' % ','.join("const:'%s'" % m for m in s) for s in states)
 
 
 P = 'self._state._raw_pointer'
 
 
-def chacha_class(reg, empty=False):
+def chacha_class(reg, empty=False, state=None):
     # (clauses are kept free of `and` / `or` / `==>` over symbolic values: each of those forks the clause evaluation)
     valid = ['%s is not None' % P, '%s.g_alg == 9' % P, 'not %s.g_freed' % P,
              'len(%s.g_key) == 32' % P,
@@ -179,7 +183,11 @@ def chacha_class(reg, empty=False):
              'len(%s.g_nonce) == ite(len(self.nonce) == 24, 12, len(self.nonce))' % P,
              '%s.g_nonce == self.nonce or len(self.nonce) == 24' % P,
              "len(self._next) >= 1 and (len(self._next) == 2) == ('encrypt' in self._next and 'decrypt' in self._next)"]
-    fields = {} if empty else {'nonce': 'bytes', '_name': 'str', '_next': next_type(), '_state': 'obj:' + SP}
+    fields = {} if empty else {'nonce': 'bytes', '_name': 'str', '_next': next_type(state), '_state': 'obj:' + SP}
+    if state == 'any':
+        # methods that neither read nor write `_next` (_encrypt, seek) are verified for an ARBITRARY value of it
+        fields['_next'] = 'any'
+        valid = valid[:-1]
     reg.add(ClassContract(CH + 'ChaCha20Cipher', fields=fields, valid=valid))
 
 
@@ -214,7 +222,7 @@ def chacha_contracts(variant='rw'):
     out.append(Contract(CH + 'ChaCha20Cipher.seek', params={'position': 'int'},
                         raises={'ValueError': ('iff', 'position < 0 or 64 * (position // 64) >= %s' % lim)},
                         ensures={'honoured': '%s.g_pos == position' % P, 'valid': 'valid(self)', 'none': 'result is None'},
-                        modifies=[P + '.g_pos'], on_raise={'ValueError': ['self._next == old(self._next)']}))
+                        modifies=[P + '.g_pos']))
     return out
 
 
@@ -235,7 +243,7 @@ def chacha_init_contract():
 
 
 def chacha_new_contract():
-    shapes = cf.dict_shapes([], [('key', list(cf.KEYT)), ('nonce', list(cf.KEYT)), ('bogus', ['int'])])
+    shapes = cf.dict_shapes([], [('key', ['bytes']), ('nonce', list(cf.KEYT)), ('bogus', ['int'])])      # (key types: __init__)
     tfault = "('key' not in kwargs or 'bogus' in kwargs)"
     nl = "len(kwargs['nonce'])"
     vfault = "('key' in kwargs and (len(kwargs['key']) != 32 or ('nonce' in kwargs and %s != 8 and %s != 12 and %s != 24)))" % (nl, nl, nl)
@@ -254,14 +262,14 @@ def chacha_new_contract():
 
 # ------------------------------------------------------------------------------------------------ registry / units
 
-def registry(what='chacha', variant='rw'):
+def registry(what='chacha', variant='rw', state=None):
     reg = base_registry()
     rawapi.install_glue(reg)
     native_classes(reg)
     rawapi.smartpointer_contract(reg, 'obj:native.Stream')
     if what == 'chacha':
         install_chacha(reg)
-        chacha_class(reg, empty=(variant == 'init'))
+        chacha_class(reg, empty=(variant == 'init'), state=state)
         if variant == 'init':
             reg.add(chacha_init_contract())
         elif variant == 'new':
@@ -280,12 +288,15 @@ def units(prop, tier):
     out = []
     q = CH + 'ChaCha20Cipher.'
     if prop in ('C02', 'C09', 'C10', 'C11', 'C17', 'C19'):
-        out.append(pyvc_unit(prop, 'chacha20._encrypt', lambda: registry('chacha'), [q + '_encrypt']))
-        out.append(pyvc_unit(prop, 'chacha20.encrypt', lambda: registry('chacha'), [q + 'encrypt']))
-        out.append(pyvc_unit(prop, 'chacha20.decrypt', lambda: registry('chacha'), [q + 'decrypt']))
+        out.append(pyvc_unit(prop, 'chacha20._encrypt', lambda: registry('chacha', state='any'), [q + '_encrypt'], weight=2))
+        for i in range(3):
+            # one unit per automaton state (spec.fsm.reach('CLASSIC')[i]); everything else symbolic
+            out.append(pyvc_unit(prop, 'chacha20.encrypt_decrypt.state%d' % i, lambda i=i: registry('chacha', state=i), [q + 'encrypt', q + 'decrypt']))
+    if prop in ('C09', 'C10', 'C17'):
+        out.append(pyvc_unit(prop, 'chacha20._encrypt.readonly_output', lambda: registry('chacha', 'ro', state='any'), [q + '_encrypt']))
     if prop in ('C11', 'C10', 'C17'):
-        out.append(pyvc_unit(prop, 'chacha20.seek', lambda: registry('chacha'), [q + 'seek']))
+        out.append(pyvc_unit(prop, 'chacha20.seek', lambda: registry('chacha', state='any'), [q + 'seek']))
     if prop in ('C02', 'C17'):
-        out.append(pyvc_unit(prop, 'chacha20.init', lambda: registry('chacha', 'init'), [q + '__init__']))
-        out.append(pyvc_unit(prop, 'chacha20.new', lambda: registry('chacha', 'new'), [CH + 'new']))
+        out.append(pyvc_unit(prop, 'chacha20.init', lambda: registry('chacha', 'init'), [q + '__init__'], weight=2))
+        out.append(pyvc_unit(prop, 'chacha20.new', lambda: registry('chacha', 'new'), [CH + 'new'], weight=3))
     return out
